@@ -161,6 +161,11 @@ class C18(ParserSessionProp):
         for s in spec['world']['sentences']:
             s['token_style'] = style
             _unusual_words(rng, s)
+            if rng.random() < 0.1:
+                # text extracted from PDFs and the like: control characters glued to a word (some formats refuse them,
+                # which is fine for this property as long as the objects stay untouched and the refusal is repeatable)
+                i = rng.randrange(len(s['words']))
+                s['words'][i] = s['words'][i] + rng.choice(['\x0c', '\x0b', '\x01', '\ufffe', '\x7f'])
         lang = spec['world']['grammar']['lang']
         length = rng.choice([1, 2, 2, 3, 4, 6, 9, 12])
         hist = []
